@@ -45,7 +45,7 @@ type c04item struct {
 
 func (it c04item) String() string {
 	switch it.kind {
-	case "r", "e", "dup", "mal", "mal2":
+	case "r", "e", "dup", "mal", "mal2", "strid":
 		return fmt.Sprintf("%s%d", it.kind, it.slot)
 	}
 	return it.kind
@@ -156,6 +156,8 @@ func c04exec(c *vt.Ctx, r c04run) {
 				s := slots[it.slot]
 				s.want = append(s.want, "anyerror")
 				return fmt.Sprintf(`{"jsonrpc":"2.0","id":%s,"error":5}`, s.id)
+			case "strid": // a different id: the JSON string that spells a pending numeric id
+				return fmt.Sprintf(`{"jsonrpc":"2.0","id":"%s","result":%q}`, strings.Trim(slots[it.slot].id, `"`), tok)
 			case "unk":
 				return fmt.Sprintf(`{"jsonrpc":"2.0","id":99999,"result":%q}`, tok)
 			case "note":
@@ -353,7 +355,7 @@ func init() {
 		Prop:  "C04",
 		Level: "exploration",
 		Rule: "operation sets {Call,Call}, {Call,Batch[c,n,c]}, {Batch[c,c],Call}, {Call,Call,Call}, {Batch[n,c,n]}, {Batch[n,c],Call}, {Batch[c,n,c],Batch[n,c]} against a raw peer; reply streams = every permutation of the replies x every partition into records (objects / arrays) " +
-			"x one extra item {duplicate reply, malformed member with a pending id, unknown id, server notification, server callback, non-object member} at every position, x one reply omitted; " +
+			"x one extra item {duplicate reply, malformed member with a pending id, unknown id, string spelling of a pending numeric id, server notification, server callback, non-object member} at every position, x one reply omitted; " +
 			"records are delivered with a settle in between (first reply wins) or back to back (any reply sent for the id), plus delay-bounded schedules and seeded random streams with up to 24 outstanding requests. " +
 			"distinct_nontrivial = distinct (operations, stream, mode, delay set) with at least two replies",
 		Assumptions: []string{
@@ -380,7 +382,7 @@ func c04slotsOf(ops []string) int {
 
 func c04cases(e vt.Env, yield func(vt.Case) bool) {
 	opsets := [][]string{{"C", "C"}, {"C", "B:cnc"}, {"B:cc", "C"}, {"C", "C", "C"}, {"B:ncn"}, {"B:nc", "C"}, {"B:cnc", "B:nc"}}
-	extras := []string{"", "dup", "mal", "mal2", "unk", "note", "cb", "nonobj"}
+	extras := []string{"", "dup", "mal", "mal2", "strid", "unk", "note", "cb", "nonobj"}
 	for oi, ops := range opsets {
 		n := c04slotsOf(ops)
 		base := make([]c04item, n)
@@ -411,7 +413,7 @@ func c04cases(e vt.Env, yield func(vt.Case) bool) {
 							for k := 0; k <= len(p); k++ {
 								if k == pos {
 									switch ex {
-									case "dup", "mal", "mal2":
+									case "dup", "mal", "mal2", "strid":
 										items = append(items, c04item{kind: ex, slot: pos % n})
 									default:
 										items = append(items, c04item{kind: ex})
@@ -530,6 +532,9 @@ func c04cases(e vt.Env, yield func(vt.Case) bool) {
 			}
 		}
 		for k := 0; k < rng.IntN(4); k++ {
+			if rng.IntN(4) == 0 {
+				items = append(items, c04item{kind: "strid", slot: rng.IntN(n)})
+			}
 			items = append(items, c04item{kind: []string{"unk", "note", "cb", "nonobj"}[rng.IntN(4)]})
 		}
 		rng.Shuffle(len(items), func(a, b int) { items[a], items[b] = items[b], items[a] })
